@@ -218,6 +218,12 @@ class RecSubscriber(Subscriber):
             outstanding = self.granted - self.received
             if outstanding <= pol[2] and self.granted < MAX_N:
                 self._request(pol[1])
+        elif pol[0] == 'burst':
+            # several grants back to back (request(1); request(2); request(3)): they pile up at the producer
+            outstanding = self.granted - self.received
+            if outstanding <= pol[2] and self.granted < MAX_N:
+                for n in pol[1]:
+                    self._request(n)
         elif pol[0] == 'late':
             outstanding = self.granted - self.received
             if outstanding <= pol[2] and self.granted < MAX_N:
